@@ -3,4 +3,5 @@ import Props.C02
 import Props.C03
 import Props.C07
 import Props.C13
+import Props.C14
 import Props.C15
